@@ -99,7 +99,7 @@ def parseNum (cs : List Char) : PR JNum :=
     if !oke then .bad else
     if fp.isEmpty && !hasE then
       let v := digitsVal ip
-      if neg && v = 0 then .outside                              -- "-0": int vs uint fields disagree
+      if neg && v = 0 && !r3.isEmpty then .outside               -- "-0": int vs uint fields disagree (at the very end: a truncation or a bare `-0`, no field involved)
       else .ok (.int (if neg then -(Int.ofNat v) else Int.ofNat v)) r3
     else
       if ep.length > 4 || ip.length + fp.length > 400 then .outside else
@@ -196,7 +196,7 @@ end
 def parseDoc (bytes : List Nat) : Option (Option Json) :=
   if bytes.any (· ≥ 127) then none else
   let cs := bytes.map Char.ofNat
-  match parseValue (cs.length + 2) cs with
+  match parseValue (2 * cs.length + 4) cs with
   | .outside => none
   | .bad => some none
   | .ok v rest => if (skipWs rest).isEmpty then some (some v) else
@@ -323,7 +323,7 @@ def flowValid (r : Rec) : Bool :=
   && gi r 2 ≤ 2 && gi r 3 ≤ 1          -- a controller generator exists (otherwise the rule is never in force)
 
 /-- memory-adaptive rules are valid only below the machine's memory size: not claimed above 1 MiB -/
-def flowUnknown (r : Rec) : Bool := gi r 2 = 2 && gi r 14 > 1048576
+def flowUnknown (r : Rec) : Bool := gi r 2 = 2 && gi r 14 > 1048576 && flowValid r
 
 def flowNorm (r : Rec) : Rec :=
   if gi r 2 = 1 && gi r 9 ≤ 1 then r.set 9 (.i 3) else r        -- config.DefaultWarmUpColdFactor
@@ -492,11 +492,13 @@ def deliverMod (md : ModDef) (ms : ModSt) (bytes : List Nat) : ModSt × Option (
     let (ideal', cause') := match ci with
       | .ok v =>
         let vs := validElems md.mo.valid v
-        let hasKey := md.hotspot && vs.any (fun r => gs r 5 != "")
+        let hasKey := md.hotspot && (match v with | some l => l.elems.any (fun r => gs r 5 != "") | none => false)
         let isPanic := match c with | .panic => true | _ => false
         (vs.map md.mo.norm,
           if isPanic then "null-element-swallowed" else if hasKey then "hotspot-paramkey-dropped" else ms.cause)
-      | _ => (ms.ideal, ms.cause)
+      | _ =>
+        let asisOk := match c with | .ok _ => true | _ => false
+        (ms.ideal, if md.hotspot && asisOk then "hotspot-paramkey-dropped" else ms.cause)   -- a wrongly typed `paramKey` is not even looked at
     let retIdeal := match ci with | .ok _ => Ret.nil | _ => Ret.err
     ({ ms with hm := hm', ideal := ideal', hmI := hmI', cause := cause' }, some (ret, retIdeal))
   | _, _ => ({ ms with lost := true }, none)
